@@ -23,6 +23,34 @@ CHECKS = {
              'asyncio); glass-box part reads '
              'ConnectionState._selected.messages._sorted; redis backend and '
              'threaded maildir mode not covered here'),
+    'C02': dict(
+        category='exploration', design='4/C02',
+        technique='runtime monitor: per-session shadow view vs. probe dump at '
+                  'every quiescent point of random multi-session histories',
+        text='Random histories of mutating commands by 2-4 sessions (biased '
+             'to messages another session just expunged) under randomised '
+             'external-event schedules; at every quiescent point each session '
+             'issues NOOP and its shadow view (UID set and flags, kept as a '
+             'real client keeps them incl. optimistic .SILENT stores) must '
+             'equal the mailbox as seen by a fresh read-only probe session '
+             '(cross-checked with the dict table).',
+        note='same schedule space as C01; a client is assumed to fetch only '
+             'what it was never told; threaded maildir mode not covered'),
+    'C16': dict(
+        category='exploration', design='4/C16',
+        technique='runtime monitor: idler shadow view vs. mailbox at loop '
+                  'quiescence (bounded-progress restatement of eventual '
+                  'delivery), schedules vary when changes land relative to '
+                  'the idler arming/writing/parked',
+        text='1-2 idling sessions and 1-2 writers with bursts of changes; '
+             'after the burst no input is given to anyone and the controlled '
+             'loop runs until nothing is runnable (maildir: 3.5 virtual '
+             'seconds of polling); then every idler view must equal the '
+             'mailbox; DONE must give OK with no late data, garbage must '
+             'give BAD. Evidence counts how many changes landed before-arm / '
+             'during-write / parked.',
+        note='unbounded "eventually" is out of reach for monitoring and is '
+             'restated as quiescence of the controlled loop'),
 }
 
 NOT_YET = 'check not built yet in this round (see DESIGN.md section 4)'
